@@ -68,10 +68,65 @@ theorem without_keep_pass_vacuum_breaks_current :
   revert this
   decide
 
+/-- **no listed version is left referring to a deleted object**: the historic versions are
+    delisted from root/current/ *before* any node is deleted and from root/merged/ afterwards, so
+    at every crash point inside the node deletions every version still listed as current — and,
+    once vacuum is through, every version listed anywhere — has all of its nodes.  (Every listed
+    version is historic or kept: `hl`.) -/
+theorem vacuum_leaves_no_listed_version_dangling (s : Store) (l : Listing) (candidates : List Hash)
+    (historic kept : List Nat)
+    (hl : ∀ v, v ∈ l.current ++ l.merged → v ∈ historic ∨ v ∈ kept)
+    (hc : ∀ v, v ∈ l.current ++ l.merged → Complete s v) (k : Nat) :
+    (∀ v, v ∈ (delist F l historic).current →
+      Complete (afterDeletes s ((deleteSet F s candidates kept).take k)) v) ∧
+    (∀ v, v ∈ (delist F l historic).current ++ (delist F l historic).merged →
+      Complete (afterDeletes s (deleteSet F s candidates kept)) v) := by
+  have hF : F.vacuumFinishesRetire = true := rfl
+  have key : ∀ v, v ∈ (delist F l historic).current ++ (delist F l historic).merged →
+      v ∈ kept ∧ Complete s v := by
+    intro v hv
+    simp only [delist, hF, if_true, List.mem_append, List.mem_filter, Bool.not_eq_true',
+      List.contains_eq_mem, decide_eq_false_iff_not] at hv
+    have hmem : v ∈ l.current ++ l.merged := by
+      rcases hv with h | h
+      · exact List.mem_append.2 (Or.inl h.1)
+      · exact List.mem_append.2 (Or.inr h.1)
+    have hnot : v ∉ historic := by rcases hv with h | h <;> exact h.2
+    rcases hl v hmem with h | h
+    · exact absurd h hnot
+    · exact ⟨h, hc v hmem⟩
+  refine ⟨fun v hv => ?_, fun v hv => ?_⟩
+  · have := key v (List.mem_append.2 (Or.inl hv))
+    exact vacuum_safe s candidates kept v this.1 this.2 k
+  · have := key v hv
+    have h2 := vacuum_safe s candidates kept v this.1 this.2 (deleteSet F s candidates kept).length
+    rwa [List.take_length] at h2
+
+/-- without the retire-finishing pass (the code before the F38 fix): version 1 was superseded by
+    version 2 but its retirement failed, so it is still listed as current; vacuum treats it as
+    historic, deletes node 7 that only it uses, and leaves it listed -/
+theorem without_retire_pass_current_dangles :
+    let F0 : Facts := { F with vacuumFinishesRetire := false }
+    let s : Store := { nodes := [7, 8], reach := fun v => if v = 1 then [7] else [8] }
+    let l : Listing := { current := [1, 2], merged := [] }
+    1 ∈ (delist F0 l [1]).current ∧ ¬ Complete (afterDeletes s (deleteSet F0 s [7] [2])) 1 := by
+  intro F0 s l
+  refine ⟨by decide, fun h => ?_⟩
+  have h7 : (7 : Nat) ∈ (afterDeletes s (deleteSet F0 s [7] [2])).reach 1 := by decide
+  have := h 7 h7
+  revert this
+  decide
+
+/-- the premises of `vacuum_leaves_no_listed_version_dangling` are satisfiable -/
+example : let l : Listing := { current := [1, 2], merged := [0] }
+    (∀ v, v ∈ l.current ++ l.merged → v ∈ [0, 1] ∨ v ∈ [2]) := by decide
+
 theorem vacuum_facts :
-    F.vacuumKeepsReachable = true ∧ F.vacuumRefusesDirty = true ∧
+    F.vacuumKeepsReachable = true ∧ F.vacuumRefusesDirty = true ∧ F.vacuumFinishesRetire = true ∧
     F.vacuumOrder = ["removeTombstones", "commit", "deleteHistoric"] ∧
-    F.deleteOrder = ["nodes", "roots"] ∧
+    F.deleteOrder = ["current aws.String(s.root.Prefix + l)",
+      "nodes aws.String(s.persist.(*persistEncryptor).Prefix + l)",
+      "roots aws.String(s.merged.Prefix + l)"] ∧
     F.rowCutoff = "row.Deleted && rowTime.Add(row.DeleteUpdateOffset.AsDuration()).Before(beforeTime)" := by
   decide
 
